@@ -133,3 +133,18 @@ type StubError struct {
 
 func (s *StubError) Error() string { return s.Msg }
 func (s *StubError) Unwrap() error { return s.Wrapped }
+
+// Boolean connectives that do not fork under the engine (arguments are
+// evaluated eagerly, the engine builds one term).
+func And(a, b bool) bool     { return a && b }
+func Or(a, b bool) bool      { return a || b }
+func Not(a bool) bool        { return !a }
+func Implies(a, b bool) bool { return !a || b }
+
+// IteU64 is a non-forking conditional.
+func IteU64(c bool, a, b uint64) uint64 {
+	if c {
+		return a
+	}
+	return b
+}
